@@ -288,7 +288,8 @@ impl Hash for Value {
             Value::EdgeKey(key) => key.hash(state),
             Value::Int(i) => i.hash(state),
             Value::Float(f) => {
-                // Hash by bit pattern for consistency
+                // Hash by bit pattern for consistency; `-0.0 == 0.0`, so both must hash alike.
+                let f = if *f == 0.0 { 0.0 } else { *f };
                 f.to_bits().hash(state);
             }
             Value::String(s) => s.hash(state),
